@@ -205,7 +205,7 @@ func c04PanicSite(stack string) string {
 // hard limit after which the worker gives up on an input: far above the judged bound, so that a slow machine is
 // told apart from a hang by the judge, not by the watchdog
 func c04Hard(n int) time.Duration {
-	return 20*time.Second + time.Duration(n)*2*time.Millisecond
+	return 3*time.Second + time.Duration(n)*2*time.Millisecond
 }
 
 func c04RunOne(c *C4Case, hardScale float64) C4Result {
@@ -367,7 +367,13 @@ func c04Exec(cases []C4Case, dir, tag string, par int) map[int]*C4Result {
 				if ee, ok := err.(*exec.ExitError); ok {
 					code = ee.ExitCode()
 				}
-				if code != 3 || seen == 0 || results[todo[seen-1].ID].Outcome != 3 {
+				lastTimedOut := false
+				if seen > 0 {
+					mu.Lock()
+					lastTimedOut = results[todo[seen-1].ID].Outcome == 3
+					mu.Unlock()
+				}
+				if code != 3 || !lastTimedOut {
 					// the worker died on the input after the last reported one
 					bad := todo[seen]
 					msg := c6PanicLine(stderr.String())
@@ -548,9 +554,9 @@ func c04Streams(seed int64, tier string, boost int) []C4Case {
 	scale *= boost
 
 	// ---- corpus: inputs that failed on some version of the code
-	s.add(c04Plain("empty", false, false, "corpus", "1"))      // index out of range in parseOp (fixed: dcae05b)
+	s.add(c04Plain("empty", false, false, "corpus", "1"))      // index out of range in parseOp (fixed: c072a0a)
 	s.add(c04Plain("empty", false, false, "corpus", "-1"))     //
-	s.add(c04Plain("lastunary", false, false, "corpus", "-1")) // unary = last binary operator
+	s.add(c04Plain("lastunary", false, false, "corpus", "-1")) // unary = last binary operator (fixed: c509299)
 	s.add(c04Plain("lastunary", false, false, "corpus", "-1-2+-3"))
 	s.add(c04Plain("value", false, false, "corpus", "1 ) )")) // C12: tokenizer goroutine left behind
 	s.add(c04Plain("value", false, false, "corpus", "1 )"))
@@ -890,24 +896,37 @@ func cmdC04(seed int64, tier, outDir string) {
 		return time.Duration(r.Micros)*time.Microsecond > c04Bound(len(c04Text(c.Segs)), r.StackKB)
 	}
 	var again []C4Case
+	hard := 0
 	for i := range cases {
 		if r := results[cases[i].ID]; r != nil && over(&cases[i], r) {
+			if r.Outcome >= 3 {
+				// the watchdog fired or the worker died: repeating costs the whole watchdog time again, so only the
+				// first three (smallest ids = corpus first) are repeated, once
+				hard++
+				if hard > 3 {
+					continue
+				}
+			}
 			again = append(again, cases[i])
 		}
 	}
 	sum.Extra["repeated_alone"] = len(again)
+	sum.Extra["watchdog_or_crash_in_first_run"] = hard
 	if len(again) > 40 {
 		again = again[:40]
 	}
 	for round := 0; round < 2 && len(again) > 0; round++ {
 		var still []C4Case
 		for i := range again {
+			old := results[again[i].ID]
+			if round > 0 && old.Outcome >= 3 {
+				continue
+			}
 			rr := c04Exec(again[i:i+1], filepath.Join(outDir, "work"), fmt.Sprintf("s%d", round), 1)
 			r := rr[again[i].ID]
 			if r == nil {
 				continue
 			}
-			old := results[again[i].ID]
 			if r.Outcome < 3 && (old.Outcome >= 3 || r.Micros-250*r.StackKB < old.Micros-250*old.StackKB) {
 				results[again[i].ID] = r
 			}
